@@ -125,6 +125,13 @@ CORPUS = {
         Q_RENAME_WEIGHT, Q_ERRMSG,
     ],
     'C03': [
+        ('side-cursor-advanced-for-seeded-members-only', 'fire', [(RP, '        let mut masks = Vec::with_capacity(range_proofs.len());', '''        let mut masks = Vec::with_capacity(range_proofs.len());
+        let mut seeded_positions = 0..range_proofs.len();'''), (RP, '''                    if let Some(seed_nonce) = statement.seed_nonce {
+                        let mut temp_masks = Vec::with_capacity(extension_degree);''', '''                    if let Some(seed_nonce) = statement.seed_nonce {
+                        if seeded_positions.next().is_none() {
+                            return Err(ProofError::InvalidLength("position".to_string()));
+                        }
+                        let mut temp_masks = Vec::with_capacity(extension_degree);''')], 'R-C03-6'),
         ('seedless-members-skip-the-equation', 'fire', [(RP, '''                    } else {
                         masks.push(None);
                     }
